@@ -47,9 +47,9 @@ CLAIMED = {
    ref='§5 C20', technique='Lean 4 proof + scenario-based differential run of the real executables',
    note=TB + ' OS behaviour and glibc getopt are parameters (specified, tied by correspondence). Three defects fixed.'),
  'C02': dict(
-   text='Theorems over the executable model of the whole XML->WBXML conversion (tree builder driven by Expat\'s events — Expat is a parameter recorded from the real library — and the WBXML encoder with string table, value tokenisation and typed content): totality, absence of the explicit UB flags, output contract, ill-formed or unrecognised input is always an error (Props/C02.lean, growing; unfinished parts carry _partial names). Tie: X2W correspondence (byte-exact WBXML, every option tuple) under ASan/UBSan/LSan with the input read-only. Partial: heap, leaks, stack are runtime facts observed, not proved.',
-   ref='§5 C02', technique='Lean 4 proof over a byte-exact model (Expat as parameter) + differential run under sanitizers + 8 MiB stack ladder',
-   note=TB + ' Expat (well-formedness, entity expansion, event order) is assumed, and recorded for every input. Known finding: nesting deeper than ~60k levels exhausts the 8 MiB stack.'),
+   text='Theorems over the executable model of the whole XML->WBXML conversion (tree builder driven by Expat\'s events - Expat is a parameter recorded from the real library - and the WBXML encoder with string table, value tokenisation and typed content), for all inputs, option tuples and (where stated) arbitrary tables: x2w_contract (success, non-zero error code, or a request for a missing recorded run: never fuel, UB flag or crash flag), x2w_illformed (ill-formed text is always error 104), x2w_unknown_lang (101), x2w_empty; bounds: x2w_tree_size_le, x2w_depth_le / x2w_recursion_le, x2w_output_le, x2w_bounded (output <= 20 x events + 62 x documents for the compiled tables), x2w_linear_space. Hypotheses EnvWf (Expat\'s contract) and MainOk (no empty table names; proved for Gen.main) are shown necessary by witnesses. Tie: X2W correspondence (byte-exact WBXML, every option tuple, sources in several encodings, block-size boundaries) under ASan/UBSan/LSan with the input read-only. Partial by nature: allocator behaviour, leaks and real stack frames are runtime facts - observed (sanitizers; heap ladder against 8 MiB + 24 x (expanded input + output); 8 MiB stack ladder), not proved.',
+   ref='§5 C02, §0', technique='Lean 4 proof over a byte-exact model (Expat as parameter) + differential run under sanitizers + heap and stack ladders',
+   note=TB + ' Expat (well-formedness, entity expansion, event order) is assumed, and recorded for every input. Known finding: nesting deeper than ~60k levels exhausts the 8 MiB stack. x2w_embedded_fuel_partial: the bound on nested embedded documents is a property of Expat\'s runs, stated under the Ranked hypothesis.'),
  'C03': dict(
    text='Round-trip theorems over the conversion models (Props/C03.lean): build_reconstructs (the tree builder over the events of any grammar document yields the tree read off that document), rt_preserves_partial (XML tree -> WBXML -> tree gives the source tree in normal form: same nesting, names, attributes with values in order, character data after the documented normalisation), norm_idempotent (+ witnesses that its hypotheses are needed), and the second round trip with Expat as the single stated assumption ReadsBack: rt2_is_rt1_partial (same event view, same tree up to canon, and the printed XML of the second trip equals the first octet by octet). _partial marks exactly: names identified up to token-row/literal (canon), no <Data> elements / CDATA / embedded documents / typed content / ActiveSync alias in the first trip, languages without namespace table in the second. Negative witnesses: WBXML octets of first and second trip may differ (known finding empty-element-form). Tie: correspondence of both conversions on every step; implementation-side oracle: Expat re-reads the round-tripped XML and tools/docmp.py compares nesting, names (alias classes), attributes, character data under exactly the documented normalisations; second round trip byte-identical.',
    ref='§5 C03, §0', technique='Lean 4 proof (composition of encoder, parser and builder theorems; Expat as stated assumption) + differential round trips with an independent document comparison',
@@ -59,9 +59,9 @@ CLAIMED = {
    ref='§5 C05', technique='Lean 4 proof over the printer model + independent XML parser as oracle',
    note=TB + ' Well-formedness against the XML Recommendation is carried by Expat as independent reader. Three defects fixed (nested CDATA, ]]> in CDATA, literal-root namespace).'),
  'C06': dict(
-   text='Theorems over the WBXML encoder model: header fields, exact string-table length and offsets, references at entry starts, page switches exactly when the page changes, output is Spec.ser of a well-formed Spec.Doc so that parse_ser applies (Props/C06.lean, growing, _partial where unfinished). Tie: X2W correspondence over all option tuples; oracle on the implementation\'s bytes: structural walker (header, table, references), strict decode by the Lean specification reader (SPEC), decoded events = source document.',
-   ref='§5 C06', technique='Lean 4 proof over the encoder model + strict specification decoder as oracle',
-   note=TB + ' Three defects fixed (string-table aliasing, WBXML 1.0 charset field, anonymous public id).'),
+   text='Theorems over the WBXML encoder model: for every tree - header_is_ser, header fields (version, charset UTF-8 except WBXML 1.0, public id numeric / textual / 01 when anonymous), strtbl_len_exact, strtbl_invariant, switch_iff_page_changes; under the decidable table facts proved for all 29 compiled languages - enc_is_ser (output = Spec.ser d), refs_hit_entry_starts, literals_only_via_strtbl, token_under_own_page, and enc_is_ser_wf / decodes_by_spec for ALL languages incl. typed content (WV integers and date-times, SI/EMN date-times, base64 binary): the output is a well-formed grammar document and the parser delivers exactly Spec.events d, under four hypotheses on the source each of which is a recorded known finding and is shown necessary by a kernel-checked witness; by-value laws per typed form; denotes_source_partial (event view = source view) for plain trees of 21 languages. Tie: X2W correspondence over all option tuples; oracle on the implementation\'s bytes: structural walker (header, table, references), strict decode by the Lean specification reader (SPEC), decoded events = source document.',
+   ref='§5 C06, §0', technique='Lean 4 proof over the encoder model + strict specification decoder as oracle',
+   note=TB + ' Five defects fixed (string-table aliasing, WBXML 1.0 charset field, anonymous public id, base64 white space, namespace scope shared with C05).'),
  'C07': dict(
    text='Option-independence theorems over the conversion models (charset irrelevant, version/anonymity change only the header, generation modes change only white space between markup; Props/C07.lean, growing). Tie: correspondence + oracle: all 32 encoder tuples decode to one document (within each keep-ws class), compact/indent/canonical XML read back as the same tree, UTF-16 / ISO-8859-1 transcodings give byte-identical WBXML.',
    ref='§5 C07', technique='Lean 4 proof + cross-product differential run',
